@@ -390,6 +390,28 @@ func init() {
 	}
 }
 
+func init() {
+	// viewBox chunks with a non-finite member (4-byte form) in every position, alone and at both
+	// ends of its axis; the other members are -1,-1,1,1 in the one-byte form
+	for _, nf := range NonFinite {
+		num := spec.EncodeNaturalW(math.Float32bits(nf)>>2, 4)
+		for k := 0; k < 4; k++ {
+			for _, both := range []bool{false, true} {
+				var body []byte
+				for i, one := range []byte{0x7e, 0x7e, 0x82, 0x82} {
+					if i == k || both && i == (k+2)%4 {
+						body = append(body, num...)
+					} else {
+						body = append(body, one)
+					}
+				}
+				b := append([]byte{0x89, 'I', 'V', 'G', 0x02, byte(1+len(body)) << 1, 0x00}, body...)
+				Hostile = append(Hostile, append(b, 0xc0, 0x80, 0x80, 0x01, 0x90, 0x70, 0x80, 0x90, 0xe1))
+			}
+		}
+	}
+}
+
 // Mutate draws a mutation of b (other provides material for splices).
 func Mutate(t *rapid.T, b, other []byte) []byte {
 	out := append([]byte{}, b...)
